@@ -265,6 +265,8 @@ pub open spec fn imin(a: int, b: int) -> int { if a <= b { a } else { b } }
 #[verifier::external_body]
 pub fn vx_rest<T>() -> (r: T) { unimplemented!() }
 
+// @@INCLUDE stdx@@
+
 // @@EXTRACTED@@
 
 } // verus!
